@@ -80,7 +80,7 @@ CHECKS = {
          "Universe of 8 (quick) / 11 (thorough) names; canonical state key is the content address (exact). Reference = boxo v0.24.0.",
          "DESIGN.md §5 C08"),
  "C11": ("bounded-exhaustive enumeration vs recursive tree-sum model",
-         "Every small file shape (incl. equal chunks where de-duplicated storage < tree sum), every universe subset as sharded/plain directory and directories of builder-written files, quick-builder trees with 1..4-chunk files (every Node.Size()): returned size, every link Tsize, every interior FileSize/BlockSizes are recomputed from the stored blocks by an independent parser.",
+         "Every small file shape (incl. equal chunks where de-duplicated storage < tree sum), every universe subset as sharded/plain directory and directories of builder-written files, quick-builder trees with 1..4-chunk files (every Node.Size()), symlinks of 25 target lengths, 12 recursive imports, and two builds interleaved through one shared LinkSystem under the cooperative scheduler (preemption bound 2): returned size, every link Tsize, every interior FileSize/BlockSizes are recomputed from the stored blocks by an independent parser.",
          "Model = own dag-pb parser + gogo unixfs_pb over stored blocks.",
          "DESIGN.md §5 C11"),
  "C20": ("bounded-exhaustive enumeration with ordered request log vs independent DFS",
